@@ -198,6 +198,7 @@ Proof.
     eapply mget_loop_only_removes; exact H1.
   - (* MSET *) unfold h_mset in H1. unfold nparts in H1.
     destruct ((len parts <? 3) || (len parts mod 2 =? 0)); [inversion H1; reflexivity|].
+    destruct (mset_valid (tl parts)); [|inversion H1; reflexivity].
     eapply (mset_loop_marks now (length (tl parts))); eauto.
   - (* GETSET *) unfold h_getset, nth_arg in *. unfold nparts in H1.
     destruct (negb (len parts =? 3)) eqn:Ea; [inversion H1; reflexivity|].
